@@ -21,6 +21,8 @@ Definition ca (o : outcome) : ccase * outcome := (CAny, o).
 
 (* cr values observed: {@range ..} on these values (hex); ci observed: an @for that never ends by its condition *)
 Definition cr (vs : list string) (o : outcome) : ccase * outcome := (CRange (map unhex vs), o).
+(* cacc sample idx observed: {idx} evaluated as accumulator / group expression on one sample *)
+Definition cacc (m : string) (idx : Z) (o : outcome) : ccase * outcome := (CAcc (unhex m) idx, o).
 Definition ci (o : outcome) : ccase * outcome := (CInf, o).
 
 Definition model (i : ccase) : outcome := predict i.
